@@ -1369,6 +1369,9 @@ func (st *Runtime) evaluateArgs(fnType reflect.Type, args CallArgs, pipedArg *re
 		in := fnType.In(slot)
 		var term reflect.Value
 		if args.Exprs[i].Type() == NodeUnderscore {
+			if pipedArg == nil {
+				return nil, fmt.Errorf("argument for position %d in %s is a pipe slot ('_'), but no value is piped in", slot, fnType)
+			}
 			term = *pipedArg
 		} else {
 			term = st.evalPrimaryExpressionGroup(args.Exprs[i])
@@ -1392,6 +1395,9 @@ func (st *Runtime) evaluateArgs(fnType reflect.Type, args CallArgs, pipedArg *re
 		for i < len(args.Exprs) {
 			var term reflect.Value
 			if args.Exprs[i].Type() == NodeUnderscore {
+				if pipedArg == nil {
+					return nil, fmt.Errorf("argument for position %d in %s is a pipe slot ('_'), but no value is piped in", slot, fnType)
+				}
 				term = *pipedArg
 			} else {
 				term = st.evalPrimaryExpressionGroup(args.Exprs[i])
